@@ -411,6 +411,52 @@ fn gen_case(rng: &mut Rng) -> Case {
     c
 }
 
+/// Monitor self-test doubles (never used for a verdict): an allow-list wrapper with a seeded defect, to
+/// show that the oracle fires on the mutants the design lists.  0 = off.
+static SELFTEST: std::sync::atomic::AtomicU8 = std::sync::atomic::AtomicU8::new(0);
+
+struct Buggy {
+    inner: Box<dyn SyncHttpResolver>,
+    pats: Vec<String>,
+    /// 1 = wildcard suffix match without the dot check, 2 = port ignored
+    defect: u8,
+}
+
+impl SyncHttpResolver for Buggy {
+    fn http_resolve(&self, request: Request<Vec<u8>>) -> Result<c2pa::http::http::Response<Box<dyn Read>>, c2pa::http::HttpResolverError> {
+        let u = request.uri().clone();
+        let ok = self.pats.iter().any(|p| {
+            let rp = ref_parse_pattern(p);
+            let Some(ph) = rp.host.clone() else { return rp.scheme.is_some() && u.scheme_str() == rp.scheme.as_deref() };
+            let h = u.host().unwrap_or("").to_ascii_lowercase();
+            let host_ok = if rp.wildcard {
+                if self.defect == 1 {
+                    h.len() > ph.len() && h.ends_with(&ph)
+                } else {
+                    h.len() > ph.len() + 1 && h.ends_with(&format!(".{ph}"))
+                }
+            } else {
+                h == ph
+            };
+            let port_ok = self.defect == 2 || rp.port.as_deref() == u.port().as_ref().map(|p| p.as_str());
+            let scheme_ok = rp.scheme.is_none() || u.scheme_str() == rp.scheme.as_deref();
+            host_ok && port_ok && scheme_ok
+        });
+        if ok {
+            self.inner.http_resolve(request)
+        } else {
+            Err(c2pa::http::HttpResolverError::UriDisallowed { uri: u.to_string() })
+        }
+    }
+}
+
+struct Boxed(Box<dyn SyncHttpResolver>);
+impl SyncHttpResolver for Boxed {
+    fn http_resolve(&self, request: Request<Vec<u8>>) -> Result<c2pa::http::http::Response<Box<dyn Read>>, c2pa::http::HttpResolverError> {
+        self.0.http_resolve(request)
+    }
+}
+
 struct Exec {
     records: Vec<String>,
     outcome: String,
@@ -427,6 +473,23 @@ fn execute(c: &Case) -> Exec {
     let pats: Vec<HostPattern> = c.patterns.iter().map(|p| HostPattern::new(p)).collect();
     let m2 = mock.clone();
     let (mode, asynch, ctor_with) = (c.mode.clone(), c.asynch, c.ctor_with);
+    let st = SELFTEST.load(std::sync::atomic::Ordering::Relaxed);
+    if st != 0 {
+        let strs = c.patterns.clone();
+        let r = if st == 3 {
+            // real components, wrong order: the allow-list wraps the redirect follower (checked at hop 0 only)
+            RestrictedResolver::with_allowed_hosts(Boxed(verif_hooks::sync_resolver_stack(m2, None, true)), pats).http_resolve(req).map(|r| r.status().as_u16())
+        } else if mode == "stack" {
+            verif_hooks::sync_resolver_stack(Buggy { inner: Box::new(m2), pats: strs, defect: st }, None, true).http_resolve(req).map(|r| r.status().as_u16())
+        } else {
+            Buggy { inner: Box::new(m2), pats: strs, defect: st }.http_resolve(req).map(|r| r.status().as_u16())
+        };
+        let outcome = match r {
+            Ok(s) => format!("ok:{s}"),
+            Err(e) => format!("err:{}", httpmon::http_err_kind(&e)),
+        };
+        return Exec { records: mock.records().into_iter().map(|r| r.uri).collect(), outcome, built: true };
+    }
     let r = report::catch_sdk(move || {
         if mode == "stack" {
             if asynch {
@@ -517,8 +580,17 @@ fn judge(c: &Case, e: &Exec) -> Verdict {
         } else {
             let (ps, cm) = rv.best.clone().unwrap_or(("empty-list".to_string(), Cmp { host: "-", port: "-", scheme: "-" }));
             let why = format!("host:{},port:{},scheme:{}", cm.host, cm.port, cm.scheme);
+            // cause class: the first component of the closest pattern that fails (host relation, else port, else scheme)
+            let primary = if cm.host != "ok" {
+                format!("host:{}", cm.host)
+            } else if cm.port != "ok" {
+                let pk = port_kind(&parts);
+                format!("port:mismatch{}", if pk == "port" || pk == "noport" { String::new() } else { format!("({pk})") })
+            } else {
+                "scheme:mismatch".to_string()
+            };
             v.violations.push((
-                format!("{ps}|{why}|{}|{hop}", port_kind(&parts)),
+                format!("{primary}|{hop}"),
                 format!("request {k} to `{uri}` reached the transport but no pattern of {:?} matches it (closest: {ps}, {why}); harness split: scheme={:?} host={:?} port={:?}", c.patterns, parts.scheme, parts.host, parts.port),
             ));
         }
@@ -809,6 +881,29 @@ fn main() {
             println!("{u:?}: outcome={} recorded={:?} split={:?} url={:?} violations={:?}", e.outcome, e.records, split_uri(u), url_view(u), j.violations);
         }
         return;
+    }
+    // monitor self-test: `c26 --selftest` runs the mock workload against doubles with seeded defects
+    // (wildcard without dot check / port ignored / allow-list applied at hop 0 only) and prints the
+    // signatures the oracle raises; writes no evidence, exit code 3.
+    if std::env::args().any(|a| a == "--selftest") {
+        for (st, name) in [(1u8, "wildcard-suffix-without-dot-check"), (2, "port-ignored"), (3, "allow-list-outside-redirect-follower")] {
+            SELFTEST.store(st, std::sync::atomic::Ordering::Relaxed);
+            let mut cases = directed();
+            let mut rng = Rng::new(run.seed, "c26");
+            for _ in 0..60_000 {
+                cases.push(gen_case(&mut rng));
+            }
+            let res = par::par_map(cases.len(), |i| judge(&cases[i], &execute(&cases[i])).violations);
+            let mut sigs: BTreeMap<String, u64> = BTreeMap::new();
+            for v in res {
+                for (s, _) in v {
+                    *sigs.entry(s).or_insert(0) += 1;
+                }
+            }
+            let total: u64 = sigs.values().sum();
+            println!("selftest {name}: {total} oracle hits, {} distinct signatures, e.g. {:?}", sigs.len(), sigs.iter().take(4).collect::<Vec<_>>());
+        }
+        std::process::exit(3);
     }
     if let Some(p) = run.replay.clone() {
         let v: serde_json::Value = serde_json::from_slice(&std::fs::read(&p).expect("replay file")).expect("json");
